@@ -1,7 +1,7 @@
 SPECIFICATION Spec
 CONSTANTS
-  LineForms <- MC_FormsReduced
-  FirstForms <- MC_FormsReduced
+  LineForms <- MC_FormsQuick
+  FirstForms <- MC_FormsQuick
   MaxLines = 3
   AsFound_MarkerTestedOnRawLine = FALSE
 INVARIANT TypeOK
